@@ -153,9 +153,8 @@ def subconditions(n):
     if isinstance(n, ast.UnaryOp) and isinstance(n.op, ast.Not):
         out += subconditions(n.operand)
     elif isinstance(n, ast.BoolOp):
-        for i in range(len(n.values) - 2, -1, -1):     # mypy's right-nested groups
-            if i > 0:
-                out.append(ast.BoolOp(op=n.op, values=n.values[i:]))
+        for i in range(1, len(n.values) - 1):          # mypy's right-nested groups, largest first
+            out.append(ast.BoolOp(op=n.op, values=n.values[i:]))
         for v in n.values:
             out += subconditions(v)
     return out
@@ -394,11 +393,12 @@ def model_line(real: Real, c: Case, platform: str, targets_micros, at, af) -> st
             g = real.globals(ma, mi, mc, platform, False)
             g2 = real.globals(ma, mi, mc, platform, True)
             names = " ".join(f"{k}={real.truth(code, g).replace('raise', 'x')}" for k, code in c.names.items())
+            names2 = " ".join(f"{k}={real.truth(code, g2).replace('raise', 'x')}" for k, code in c.names.items())
             opq = " ".join(f"{i}={real.truth(code, g).replace('raise', 'x')}" for i, code in enumerate(c.opaque))
             opq2 = " ".join(f"{i}={real.truth(code, g2).replace('raise', 'x')}" for i, code in enumerate(c.opaque))
         else:
-            names = opq = opq2 = ""
-        entries.append(f"{ma}.{mi}.{mc[0]}.{mc[1]}.{mc[2]} ~ {names} ~ {opq} ~ {opq2}")
+            names = names2 = opq = opq2 = ""
+        entries.append(f"{ma}.{mi}.{mc[0]}.{mc[1]}.{mc[2]} ~ {names} ~ {names2} ~ {opq} ~ {opq2}")
     return f"{platform or '%'} {','.join(at) or '-'} {','.join(af) or '-'} | {' '.join(c.tokens)} | {' ; '.join(entries)}"
 
 
